@@ -111,6 +111,8 @@ func (c *Config) YAML() string {
 		off := []string{"false", "no", "0", "off", "n", "False"}
 		if s.KeepNextHopRoute {
 			fmt.Fprintf(&b, "  keepNextHopRoute: %q\n", on[s.Index%len(on)])
+		} else if s.Index%4 == 2 {
+			// not mentioned at all: off is the default, whatever the services before it say
 		} else {
 			fmt.Fprintf(&b, "  keepNextHopRoute: %q\n", off[s.Index%len(off)])
 		}
